@@ -121,6 +121,9 @@ type stateObject struct {
 	dirtyCode bool // true if the code was updated
 	suicided  bool
 	deleted   bool
+	// created marks an account made in this transaction: it starts with no
+	// storage at all, whatever an earlier account at the address left behind
+	created bool
 }
 
 func newStateObject(db *CommitStateDB, acc *balance.EthAccount) *stateObject {
@@ -195,7 +198,10 @@ func (so *stateObject) GetCommittedState(_ ethstate.Database, key ethcmn.Hash) e
 	value := ethcmn.Hash{}
 
 	prefixStore := evm.AddressStoragePrefix(so.Address())
-	rawValue, _ := so.stateDB.contractStore.Get(prefixStore, prefixKey.Bytes())
+	var rawValue []byte
+	if !so.created {
+		rawValue, _ = so.stateDB.contractStore.Get(prefixStore, prefixKey.Bytes())
+	}
 	if len(rawValue) > 0 {
 		value.SetBytes(rawValue)
 		state.Value = value.String()
@@ -367,6 +373,11 @@ func (so *stateObject) markSuicided() {
 // the dirty storage slice to the empty state.
 func (so *stateObject) commitState() {
 	prefixStore := evm.AddressStoragePrefix(so.Address())
+	if so.created {
+		// nothing of an earlier account at this address survives its re-creation
+		so.stateDB.wipeStorage(so.Address())
+		so.created = false
+	}
 
 	so.logger.Detail("VM: dirty storage for commit state", so.address, "st", len(so.dirtyStorage))
 
@@ -450,6 +461,7 @@ func (so *stateObject) deepCopy(db *CommitStateDB) *stateObject {
 	newStateObj.suicided = so.suicided
 	newStateObj.dirtyCode = so.dirtyCode
 	newStateObj.deleted = so.deleted
+	newStateObj.created = so.created
 
 	return newStateObj
 }
